@@ -91,6 +91,8 @@ def alias_cases():
     add("same-name-link-then-file-through-it", base + [D("s1"), L("s1/x", "../other/keep"), D("s2"), F("s2/x", 50, 61), D("dst")], ["s1/x", "s2/x", "dst"], ["other/keep", "s2/x"])
     add("same-name-link-then-file-through-it-dirs", base + [D("s1"), D("s1/t"), L("s1/t/x", "../../other/keep"), D("s2"), D("s2/t"), F("s2/t/x", 50, 62), D("dst")],
         ["-T", "s1", "s2", "dst"] if False else ["s1/t", "s2/t", "dst"], ["other/keep", "s2/t/x"], True)
+    add("same-name-link-then-directory-through-it", base + [D("s1"), L("s1/t", "../other"), D("s2"), D("s2/t"), F("s2/t/keep", 50, 63), D("dst")],
+        ["s1/t", "s2/t", "dst"], ["other/keep", "s2/t/keep"], True)
     add("link-dot-slash", base + [F("f"), L("l", "f")], ["l", "./l"], ["l", "f"])
     add("link-in-T-respelled-dir", [D("d"), F("d/f"), L("d/l", "f"), D("other"), F("other/keep", 99, 13)], ["-T", "d", "./d"], ["d/f", "d/l"], True)
     add("two-sources-one-alias", base + [F("f"), D("dst"), L("dst/f", "../f")], ["other/keep", "f", "dst"], ["f", "other/keep"])
